@@ -113,6 +113,13 @@ CONVS = {
         "align32": _cc(_A64, 32),
     },
 }
+PRE_MUTATIONS = {
+    "callee-cleanup": ("caller_cleanup", False),
+    "no-shadow": ("shadow_space", 0),
+    "shadow64": ("shadow_space", 64),
+    "no-registers": ("registers", ()),
+    "align64": ("stack_alignment", 64),
+}
 QUICK_B_CONVS = {"x64-elf": ["default"], "x64-pe": ["default"], "ia32-pe": ["default"], "arm64-elf": ["default"]}
 C_CONVS = {"x64-elf": ["default", "noregs", "onereg-shadow8"], "x64-pe": ["default", "noregs", "onereg-shadow8"],
            "ia32-pe": ["default", "fastcall", "onereg-shadow8-align16"], "arm64-elf": ["default", "noregs", "x1-x0"]}
@@ -129,6 +136,7 @@ BOUNDS = {
         "C": "4 ABIs x 3 conventions x {default, noalign} x all class tuples of length <= 2",
         "S": "4 ABIs x default convention x {default, noalign} x one CallPatch object inserted at 2-3 places (5 place lists over leaf / non-leaf / "
         "no function / tail-jump function, every place evaluated) x n in {1, 2, registers+1} x position x {callable int, callable symbol, symbol, int}",
+        "M": "4 ABIs x default convention after one of 5 field mutations of a description obtained from ABI.calling_convention() x {default, noalign} x n in {0,1,2,4,5,7,9}",
         "initial_sp": "pointer-size multiples mod 32 (ARM64: multiples of 16)",
     },
     "thorough": {
@@ -190,6 +198,7 @@ def tasks(tier):
                     t.append(["B", abi, conv, prof, ch])
     for abi in sorted(CONVS):
         t.append(["S", abi, "default", tier])
+        t.append(["M", abi, "default", tier])
     for abi in sorted(CONVS):
         for conv in C_CONVS[abi]:
             for prof in ("default", "noalign"):
@@ -242,6 +251,12 @@ def _cases(task):
                                 args[pos] = c
                                 yield {"abi": abi, "conv": conv, "profile": prof, "where": sites[ev], "sites": sites, "eval": ev, "args": args}
                     yield {"abi": abi, "conv": conv, "profile": prof, "where": sites[ev], "sites": sites, "eval": ev, "args": ["fn-int", "fn-sym", "fn-int"]}
+    elif kind == "M":
+        # the default convention after someone mutated a description obtained from ABI.calling_convention()
+        for pre in PRE_MUTATIONS:
+            for prof in ("default", "noalign"):
+                for n in (0, 1, 2, 4, 5, 7, 9):
+                    yield {"abi": abi, "conv": conv, "profile": prof, "where": "nonleaf", "args": [DEFAULT] * n, "pre": pre}
     elif kind == "C3":
         prof, first = task[3], task[4]
         for b in CLASSES:
@@ -315,6 +330,14 @@ def _generate(case):
         registers=tuple(cdesc["registers"]), stack_alignment=cdesc["stack_alignment"],
         caller_cleanup=cdesc["caller_cleanup"], shadow_space=cdesc["shadow_space"],
     )
+    if case.get("pre"):
+        # somebody took the ABI's default description earlier in this process and adapted it for a callee of their own
+        # ("take the default and tweak a field"): the default used by later patches must not have moved
+        from gtirb_rewriting.abi import ABI as _LibABI
+
+        d = _LibABI.get(world.m).calling_convention()
+        field, value = PRE_MUTATIONS[case["pre"]]
+        setattr(d, field, value)
     calls = []
     sites, ev = _sites(case)
     site_blocks = []
